@@ -10,6 +10,17 @@ COMMON_NOTE = ("Trusted base: pyvc engine (AST transform T1-T3 of the real sourc
                "lift to C), A3 (integer powers), A4 (path forking via z3), A5 (numpy shim contracts, listed per run in evidence.trusted_base). ")
 
 CLAIMED = {
+    "C42": dict(
+        category="proof",
+        text=("flavor_reshape executed on fully symbolic operators, errors, rotations and inputs ((p,x) = (2,2), (3,1)): reshape(O,T,I) (.) (I f) = T (O (.) f) "
+              "for the three branches on every path (paths that skip a rotation must satisfy it after substituting the path condition); to_evol / "
+              "to_uni_evol apply the tables on the requested sides; xgrid_reshape contracts the matrix of the dispatcher on the operator grid with the "
+              "output index and that of the dispatcher on the input grid with the input index (symbolic matrices for the get_interpolation contract), "
+              "errors alike; xgrid_check skips only identical grids. One defect class (allclose shortcuts) repaired by a fix commit."),
+        note=COMMON_NOTE + "Shape-bounded (value-unbounded). The grid statement for representable functions follows from the wiring with C34's reproduction lemma.",
+        technique="contract-based deductive verification: path-exhaustive symbolic execution + exact normal form / z3",
+        design_ref="DESIGN.md section 2, C42",
+    ),
     "C34": dict(
         category="proof",
         text=("(1) block construction proved well-formed for ALL integers n > d >= 1 and every area (real loop body cut by an invariant, z3 LIA with div/mod); "
